@@ -75,7 +75,7 @@ PLANS = {
     "C15": {
         "gen": [
             {"name": "nav", "module": "GenPath", "constants": {"Family": '"nav"'}, "tier_constants": {"quick": {"MaxSteps": "1"}, "thorough": {"MaxSteps": "2"}}},
-            {"name": "filter", "module": "GenPath", "constants": {"Family": '"filter"', "MaxSteps": "0"}, "tiers": ("thorough",)},
+            {"name": "filter", "module": "GenPath", "constants": {"Family": '"filter"', "MaxSteps": "0"}},
             {"name": "pred", "module": "GenPath", "constants": {"Family": '"pred"', "MaxSteps": "0"}},
             {"name": "pre", "module": "GenPath", "constants": {"Family": '"pre"', "MaxSteps": "0"}},
         ],
